@@ -28,7 +28,24 @@ PROGRAMS = {
     'NOOP': (SEL, lambda i: [b'NOOP']),
     'UIDSTORE-3.SILENT': (SEL, lambda i: [
         b'UID STORE 3 +FLAGS.SILENT (%s)' % (b'$a', b'$b')[i]]),
+    # holds a message that still lies in new/ (delivered while it had the
+    # mailbox selected) *below* a newer one, and looks again
+    'NOOP-holding-new': (lambda i: SEL(i) + [
+        b'#DELIVER', b'NOOP', b'APPEND INBOX ' + mt.lit(mt.body('h%d' % i)),
+        b'FETCH 1:* (UID FLAGS)'], lambda i: [b'NOOP']),
+    'STORE-holding-new': (lambda i: SEL(i) + [
+        b'#DELIVER', b'NOOP', b'APPEND INBOX ' + mt.lit(mt.body('h%d' % i)),
+        b'FETCH 1:* (UID FLAGS)'], lambda i: [b'STORE 1 +FLAGS (\\Flagged)']),
+    # a session that selects only now (its SELECT claims new/ -> cur/)
+    'SELECT-unsel': (lambda i: [], lambda i: [b'SELECT INBOX',
+                                              b'FETCH 1:* (UID FLAGS)']),
 }
+# pairs run with a message lying in new/ (delivered after the prologues)
+DELIVER_PAIRS = [('NOOP', 'SELECT-unsel'), ('STORE-own', 'SELECT-unsel'),
+                 ('FETCH-1-body', 'SELECT-unsel'), ('APPEND', 'SELECT-unsel'),
+                 ('EXPUNGE-own', 'SELECT-unsel'), ('NOOP', 'NOOP')]
+HOLDING_PAIRS = [('NOOP-holding-new', 'SELECT-unsel'),
+                 ('STORE-holding-new', 'SELECT-unsel')]
 ORDER = ['APPEND', 'STORE-own', 'STORE-1', 'EXPUNGE-own', 'MOVE-own', 'MOVE-3',
          'COPY-self', 'FETCH-1-body', 'STORE-1-replace', 'UIDSTORE-3.SILENT',
          'NOOP']
@@ -38,7 +55,7 @@ def pairs(names):
     return [(a, b) for x, a in enumerate(names) for b in names[x:]]
 
 
-def run_schedule(layout, names, prefix):
+def run_schedule(layout, names, prefix, deliver=False):
     """Like mtmaildir.run_schedule, with a shadow client per session."""
     from ..procs import Sched
     n = len(names)
@@ -68,10 +85,15 @@ def run_schedule(layout, names, prefix):
     try:
         for i, nm in enumerate(names):
             for line in PROGRAMS[nm][0](i):
+                if line == b'#DELIVER':
+                    cl.deliver()        # a file dropped into new/
+                    continue
                 tg = cmd(i, line)
                 assert tg is not None and tg.name == 'OK', (line, tg)
         for sh in shadows:
             sh.take_problems()
+        if deliver:
+            cl.deliver()
         sched = Sched(cl.jail, private_dirs=[cl.worlds[0].tmp_dir],
                       shared_root=cl.worlds[0].root)
         procs = [sched.add(cl.worlds[i], cl.sessions[i],
@@ -134,16 +156,20 @@ def judge(layout, names, ex, info):
 
 
 def task(args):
-    layout, names, bound, cap = args
+    layout, names, bound, cap = args[:4]
+    deliver = bool(args[4]) if len(args) > 4 else False
     from ..procs import explore, ScheduleError
     vios = []
     outcomes = set()
 
     def run(prefix):
-        ex, info = run_schedule(layout, names, prefix)
+        ex, info = run_schedule(layout, names, prefix, deliver)
         for x in judge(layout, names, ex, info):
+            if deliver:
+                x['site'] += '+delivery'
             x['replay'] = {'mt02': True, 'layout': layout,
-                           'names': list(names), 'prefix': list(prefix)}
+                           'names': list(names), 'prefix': list(prefix),
+                           'deliver': deliver}
             vios.append(x)
         outcomes.add((tuple(info['truth']), tuple(map(tuple, info['conds']))))
         return ex, info
@@ -162,8 +188,14 @@ def task(args):
 def tasks(tier):
     if tier == 'quick':
         core = ORDER[:8]
-        return [('++', pr, 1, None) for pr in pairs(core)]
+        return [('++', pr, 1, None) for pr in pairs(core)] + \
+            [('++', pr, 1, None, True) for pr in DELIVER_PAIRS] + \
+            [('++', pr, 1, None) for pr in HOLDING_PAIRS]
     T = [(layout, pr, 1, None) for layout in ('++', 'fs')
          for pr in pairs(ORDER)]
+    T += [(layout, pr, 1, None, True) for layout in ('++', 'fs')
+          for pr in DELIVER_PAIRS]
+    T += [(layout, pr, b, None) for layout in ('++', 'fs')
+          for pr in HOLDING_PAIRS for b in (1, 2)]
     T += [('++', pr, 2, None) for pr in pairs(ORDER[:5])]
     return T
